@@ -39,7 +39,22 @@ func init() {
 			var keys []string
 			shape := "empty"
 			if ex.name != "eof" {
-				switch r.Intn(5) {
+				switch r.Intn(7) {
+				case 5:
+					// the history suggestion shown after the typed text is longer than the row
+					shape = "suggestion-wraps"
+					sp.Inputrc = "set history-autosuggest on\n"
+					// (on a screen that has room for it: a suggestion longer than the whole screen scrolls it away)
+					sp.Height = 24
+					if sp.Width < 20 {
+						sp.Width = 20
+					}
+					sp.History = []string{"one two three four five six seven eight nine ten eleven twelve thirteen fourteen fifteen sixteen"}
+					keys = append(keys, "o", "n", "e")
+				case 6:
+					// a hint is displayed below the input (the numeric argument)
+					shape = "hint-open"
+					keys = append(keys, "a", "b", "\x1b3")
 				case 0:
 					shape = "short"
 					keys = append(keys, "o", "n", "e")
@@ -118,6 +133,22 @@ func init() {
 						}
 						fs = append(fs, Finding{"C11", "cursor-not-on-fresh-row/" + ex, fmt.Sprintf("cursor at row %d col %d, last non-blank row %d\n%s", em.cur[0], em.cur[1], last, strings.Join(trimScreen(em.screen), "\n")), c})
 					}
+				}
+			}
+			// after an accepted line, what is left above the cursor is the prompt and the accepted line, nothing else
+			// (no history suggestion that was never accepted, no hint)
+			shape := strings.TrimSuffix(c.Meta["shape"], "+vi-command")
+			if (ex == "accept-line" || ex == "accept-line-nl") && !strings.Contains(c.Specs[0].Prompt, "\n") &&
+				(shape == "short" || shape == "wrapped" || shape == "exact-fit" || shape == "suggestion-wraps" || shape == "empty" || shape == "hint-open") &&
+				t.CurVTE == t.CurXT {
+				sp := c.Specs[0]
+				want, _ := reference(sp.Width, 60, sp.Prompt, []rune(res.Line), len([]rune(res.Line)))
+				var above []string
+				for i := 0; i < t.CurVTE[0] && i < len(t.VTE); i++ {
+					above = append(above, t.VTE[i])
+				}
+				if !eqLines(trimScreen(above), trimScreen(want)) {
+					fs = append(fs, Finding{"C11", "input-area-not-the-accepted-line/" + ex, fmt.Sprintf("returned %q; above the cursor (row %d): %q, want %q", res.Line, t.CurVTE[0], trimScreen(above), trimScreen(want)), c})
 				}
 			}
 			if t.Style != "0" && t.Style != "" {
